@@ -892,10 +892,15 @@ class CSSStyleSheet(cssutils.stylesheets.StyleSheet):
                 index = len(self._cssRules) - 1
             else:
                 for r in self._cssRules[index:]:
-                    if r.type in (r.CHARSET_RULE, r.IMPORT_RULE, r.NAMESPACE_RULE):
+                    if r.type in (
+                        r.CHARSET_RULE,
+                        r.IMPORT_RULE,
+                        r.NAMESPACE_RULE,
+                        r.VARIABLES_RULE,
+                    ):
                         self._log.error(
-                            'CSSStylesheet: Cannot insert rule here, found '
-                            '@charset, @import or @namespace before index %s.' % index,
+                            'CSSStylesheet: Cannot insert rule here, found @charset, '
+                            '@import, @namespace or @variables after index %s.' % index,
                             error=xml.dom.HierarchyRequestErr,
                         )
                         return
